@@ -30,7 +30,9 @@ EXPLANATION = (
     'side, calls made in the window between a local close request and connectionLost (the real sendBox interpreted), declared errors whose text '
     'cannot be encoded. STRUCTURAL as well: sendBox raises a connection-state exception only where `self.transport is None` is established '
     '(callRemote never raises while a transport exists); the reply formatters _commandReceived installs contain no strict encode/decode and no raise '
-    'outside a converting handler (every command that asks gets its one box). '
+    'outside a converting handler (every command that asks gets its one box); in ampBoxReceived whatever runs because the command key is present lies on '
+    'paths where the answer and error keys are known absent (dispatch precedence, keys resolved through the module constants); AMP.__init__ replaces a '
+    'collaborator by its default only by identity with None, never by truth value (box receiver and locator wiring). '
     "Bounded evidence only: 'answer goes to its own question', tag freshness and the error-code mappings (value-flow "
     'clauses; the structural rules decide the exactly-once and disconnect orderings). Not decided: real scheduling, the '
     'synchronous loop-back case, responders that never answer.'
@@ -38,6 +40,7 @@ EXPLANATION = (
 RULE_KINDS = {
     "state/who-may-write": "structural", "match/take-before-fire": "structural", "drain/reason-recorded-first": "structural", "drain/table-reset-first": "structural",
     "send/late-call-refused": "structural", "drain/reaches-fail-all": "structural", "reply/formatter-total": "structural", "send/connection-state-never-raises": "structural",
+    "match/dispatch-precedence": "structural", "wiring/default-by-identity": "structural",
     "*": "bounded",      # scenario interpretation with modelled Deferreds: a verdict about the enumerated histories
 }
 ASSUMPTIONS = [
@@ -859,6 +862,157 @@ def check_structural_drain(ctx, mod):
                   witness=g.describe(wit))
 
 
+def check_structural_dispatch(ctx, mod, consts):
+    """Dispatch precedence in ampBoxReceived: a box that carries an answer or error key belongs to a pending call whatever else it carries.  On the CFG
+    (private helpers inlined, keys resolved through the module constants) every statement reached because the command key is present must lie on paths
+    where the answer key and the error key are known to be absent."""
+    from sa.astx import const_eval, NotConst, walk_local
+    inl = _views(ctx, mod)
+    f = inl.view(ctx.func(AMP, "BoxDispatcher.ampBoxReceived"))
+    q = Q + ".BoxDispatcher.ampBoxReceived"
+    g = ctx.cfg(f)
+    box = f.args.args[1].arg if len(f.args.args) > 1 else "box"
+    roles = {consts.get("ANSWER"): "answer", consts.get("ERROR"): "error", consts.get("COMMAND"): "command"}
+
+    def fact(test, lab):
+        """(role, key present?) established by taking edge `lab` of `test`, for tests of the form  KEY [not] in box  /  box.get(KEY) is [not] None."""
+        flip = lab == "F"
+        while isinstance(test, ast.UnaryOp) and isinstance(test.op, ast.Not):
+            test, flip = test.operand, not flip
+        if not (isinstance(test, ast.Compare) and len(test.ops) == 1):
+            return None
+        op, a, b = test.ops[0], test.left, test.comparators[0]
+        key = present = None
+        if isinstance(op, (ast.In, ast.NotIn)) and src(b) == box:
+            key, present = a, isinstance(op, ast.In)
+        elif isinstance(op, (ast.Is, ast.IsNot)) and isinstance(b, ast.Constant) and b.value is None and isinstance(a, ast.Call) and src(a.func) == f"{box}.get" and len(a.args) == 1:
+            key, present = a.args[0], isinstance(op, ast.IsNot)
+        if key is None:
+            return None
+        try:
+            kv = const_eval(key, consts)
+        except NotConst:
+            return None
+        if kv not in roles:
+            return None
+        return roles[kv], (present != flip)
+
+    judged = 0
+    for n in g.ids(lambda nd: nd.kind == "stmt" and nd.ast is not None):
+        node = g.node(n).ast
+        if not any(isinstance(x, ast.Call) for x in walk_local(node)) or isinstance(node, ast.Raise):
+            continue
+        facts = {fc for t, lab in g.edge_guards(n) for fc in [fact(g.node(t).ast, lab)] if fc is not None}
+        if ("command", True) not in facts:
+            continue
+        judged += 1
+        missing = [r for r in ("answer", "error") if (r, False) not in facts]
+        ctx.check(not missing, "match/dispatch-precedence", ctx.construct(q, node),
+                  f"this runs because the box carries the command key, on paths where the {' / '.join(missing)} key has not been ruled out: a reply that still carries the command key "
+                  "(a responder echoing the request box) is dispatched as a new command, the pending call never gets its answer and the bogus reply reuses the peer's tag")
+    if not judged:
+        ctx.note("match/dispatch-precedence: no statement of ampBoxReceived recognised as guarded by the presence of the command key; clause left to match/reply-with-command-key (bounded)")
+
+
+def _none_or_truth(test, lab, name):
+    """What edge `lab` of `test` establishes about the local `name`: "none" (it is None), "notnone", "falsy", "truthy", or None."""
+    flip = lab == "F"
+    while isinstance(test, ast.UnaryOp) and isinstance(test.op, ast.Not):
+        test, flip = test.operand, not flip
+    if isinstance(test, ast.Name) and test.id == name:
+        return "falsy" if flip else "truthy"
+    if isinstance(test, ast.Compare) and len(test.ops) == 1:
+        a, b, op = test.left, test.comparators[0], test.ops[0]
+        if isinstance(a, ast.Constant) and a.value is None:
+            a, b = b, a
+        if isinstance(a, ast.Name) and a.id == name and isinstance(b, ast.Constant) and b.value is None:
+            if isinstance(op, (ast.Is, ast.Eq)):
+                return "notnone" if flip else "none"
+            if isinstance(op, (ast.IsNot, ast.NotEq)):
+                return "none" if flip else "notnone"
+    return None
+
+
+def check_structural_wiring(ctx, mod):
+    """AMP.__init__ wires its collaborators: the box receiver handed to BinaryBoxProtocol.__init__ is the one startReceivingBoxes/stopReceivingBoxes (and with
+    them the connection-loss clause) are called on, the locator handed to BoxDispatcher.__init__ finds the responders.  The default (the AMP object itself)
+    may replace the argument only when the argument IS None - an application object that happens to be falsy (an empty registry, a dispatcher with
+    __len__) must be kept.  Violation only for a positively recognised truthiness selection (`x or self`, `x if x else self`, `if not x: x = self`)."""
+    from sa.props._lib_g import single_defs
+    from sa.source import methods as _methods
+    cls = ctx.cls(AMP, "AMP")
+    f = _methods(cls).get("__init__")
+    if f is None:
+        ctx.note("wiring/default-by-identity: AMP defines no __init__; nothing to judge")
+        return
+    q = Q + ".AMP.__init__"
+    g = ctx.cfg(f)
+    params = [a.arg for a in f.args.args]
+    defaults = dict(zip(params[len(params) - len(f.args.defaults):], f.args.defaults))
+    wired = 0
+    for n in g.ids(lambda nd: nd.kind == "stmt" and nd.ast is not None):
+        for c in ast.walk(g.node(n).ast):
+            if not (isinstance(c, ast.Call) and isinstance(c.func, ast.Attribute) and c.func.attr == "__init__" and isinstance(c.func.value, ast.Name) and len(c.args) == 2):
+                continue
+            base = mod.find(c.func.value.id)
+            binit = _methods(base).get("__init__") if isinstance(base, ast.ClassDef) else None
+            if binit is None or len(binit.args.args) != 2:
+                continue
+            role = binit.args.args[1].arg          # the collaborator this base class stores: boxReceiver / locator
+            arg = c.args[1]
+            cons = f"{q} | {role} handed to {c.func.value.id}.__init__"
+            verdict = why = None
+
+            def sel(e):
+                """-> (verdict, why) for a selecting expression"""
+                if isinstance(e, ast.BoolOp) and isinstance(e.op, ast.Or) and isinstance(e.values[0], ast.Name) and e.values[0].id in params and defaults.get(e.values[0].id) is not None \
+                        and isinstance(defaults[e.values[0].id], ast.Constant) and defaults[e.values[0].id].value is None:
+                    return False, f"`{src(e)}` keeps `{e.values[0].id}` only if it is truthy"
+                if isinstance(e, ast.IfExp):
+                    names = [x.id for x in ast.walk(e.test) if isinstance(x, ast.Name) and x.id in params]
+                    for nm in names:
+                        k = _none_or_truth(e.test, "T", nm)
+                        if k in ("none", "notnone"):
+                            return True, f"`{src(e)}` selects by identity with None"
+                        if k in ("truthy", "falsy"):
+                            return False, f"`{src(e)}` selects by the truth value of `{nm}`"
+                return None, ""
+            if isinstance(arg, ast.Name) and arg.id in params:
+                # the parameter itself, possibly re-bound to the default before the call: every such re-binding must sit under `<param> is None`
+                rebinds = [m for m in g.ids(lambda nd: nd.kind == "stmt" and isinstance(nd.ast, ast.Assign) and any(isinstance(t, ast.Name) and t.id == arg.id for t in nd.ast.targets))]
+                verdict, why = True, "the argument is handed on as it is" if not rebinds else "re-bound to the default only where it is None"
+                for m in rebinds:
+                    val = g.node(m).ast.value
+                    kinds = {_none_or_truth(g.node(t).ast, lab, arg.id) for t, lab in g.edge_guards(m)}
+                    sv, sw = sel(val)
+                    if sv is not None:
+                        if not sv:
+                            verdict, why = False, sw
+                        continue
+                    if "none" in kinds:
+                        continue
+                    if "falsy" in kinds:
+                        verdict, why = False, f"`{src(g.node(m).ast)}` runs whenever `{arg.id}` is falsy, not only when it is None"
+                    else:
+                        verdict, why = None, f"`{src(g.node(m).ast)}` is not under a recognised test of `{arg.id}`"
+                        break
+            else:
+                e = arg
+                if isinstance(e, ast.Name) and e.id in single_defs(f):
+                    e = single_defs(f)[e.id]
+                verdict, why = sel(e)
+            if verdict is None:
+                ctx.note(f"wiring/default-by-identity: {cons}: selection `{src(arg)}` not recognised ({why}); clause left to wiring/falsy-collaborator-kept (bounded)")
+                continue
+            wired += 1
+            ctx.check(verdict, "wiring/default-by-identity", cons,
+                      f"{why}: an explicitly passed {role} that is falsy (an empty dict-like registry, a dispatcher defining __len__) is silently replaced by the AMP object itself"
+                      + (" - startReceivingBoxes/stopReceivingBoxes never reach it, so its pending calls do not fail with the connection-loss reason" if role == "boxReceiver" else
+                         " - commands it would have answered are reported as unhandled"), detail=why)
+    if not wired:
+        ctx.note("wiring/default-by-identity: no base-class constructor call recognised in AMP.__init__")
+
+
 def check_structural_send_state(ctx, mod):
     """callRemote never raises for connection state while the connection exists: in BinaryBoxProtocol.sendBox (what _sendBoxCommand reaches through
     _sendTo) a connection-state exception is raised only where `self.transport is None` is established - before the connection is made, or after
@@ -903,6 +1057,42 @@ def check_structural_send_state(ctx, mod):
                   "connection is going away raises synchronously instead of returning a Deferred that fails, exactly once, with the connection-loss reason")
     if not n:
         ctx.note("send/connection-state-never-raises: sendBox raises no connection-state exception")
+
+
+def check_dispatch_and_wiring_evaluated(ctx, mod, consts):
+    """Bounded twins: replies that still carry the command key are matched to the pending call; a falsy collaborator passed to AMP() is kept."""
+    ASK, ANSWER, ERROR, COMMAND, EC, ED = (consts[k] for k in ("ASK", "ANSWER", "ERROR", "COMMAND", "ERROR_CODE", "ERROR_DESCRIPTION"))
+    q = Q + ".BoxDispatcher.ampBoxReceived"
+    for label, mk in (("an answer that still carries the command key", lambda tag: {ANSWER: tag, COMMAND: b"cmd", b"r": b"1"}),
+                      ("an error that still carries the command key", lambda tag: {ERROR: tag, COMMAND: b"cmd", EC: b"MYCODE", ED: b"nope"})):
+        w = World(ctx, mod, consts)
+        disp = w.dispatcher()
+        ran: List[int] = []
+        w.responders[b"cmd"] = PyFn(lambda box, ran=ran, w=w: (ran.append(1), w.box({b"x": b"y"}))[1], "responder")
+        k, d, b = w.call(disp, b"cmd")
+        p = w.probe(d)
+        nsent = len(w.sent())
+        tag = w.sent()[0].data.get(ASK) if w.sent() else None
+        k2, v2 = w.receive(disp, mk(tag))
+        fired = len(p["ok"]) + len(p["err"])
+        ctx.check(k == "value" and k2 == "value" and fired == 1 and not ran and len(w.sent()) == nsent, "match/reply-with-command-key", q + f" | {label}",
+                  f"{label}: the pending call fired {fired} time(s), the responder for the command key ran {len(ran)} time(s) and {len(w.sent()) - nsent} box(es) were sent back "
+                  f"({k2} {v2 if k2 != 'value' else ''}); the reply must go to the pending call and nothing else may happen")
+    # AMP(boxReceiver=<falsy object>, locator=<falsy object>)
+    q2 = Q + ".AMP.__init__"
+    w = World(ctx, mod, consts)
+    recv, loc = w.box({}), w.box({})          # dict-like application objects that are empty (falsy) when handed over
+    a = Inst(w.cls["AMP"])
+    k, v = w.run("AMP.__init__", lambda: w.ev.method(a, "__init__", [recv, loc]))
+    for role, want in (("boxReceiver", recv), ("locator", loc)):
+        got = a.fields.get(role, "<unset>")
+        ctx.check(k == "value" and got is want, "wiring/falsy-collaborator-kept", q2 + f" | {role}",
+                  f"AMP(boxReceiver=<empty registry>, locator=<empty registry>) {'raises ' + str(v) if k != 'value' else 'stores'} {'itself' if got is a else repr(got)} as its {role}: "
+                  "the object the application passed is dropped because it is falsy")
+    a2 = Inst(w.cls["AMP"])
+    k, v = w.run("AMP.__init__", lambda: w.ev.method(a2, "__init__", []))
+    ctx.check(k == "value" and a2.fields.get("boxReceiver") is a2 and a2.fields.get("locator") is a2, "wiring/falsy-collaborator-kept", q2 + " | defaults",
+              f"AMP() without arguments must be its own box receiver and locator; got {a2.fields.get('boxReceiver')!r} / {a2.fields.get('locator')!r} ({k})")
 
 
 def check_closing_window(ctx, mod, consts):
@@ -998,6 +1188,12 @@ def check(ctx):
         check_structural_formatters(ctx, mod)
     with ctx.section("structural send state"):
         check_structural_send_state(ctx, mod)
+    with ctx.section("structural dispatch precedence"):
+        check_structural_dispatch(ctx, mod, consts)
+    with ctx.section("structural wiring"):
+        check_structural_wiring(ctx, mod)
+    with ctx.section("dispatch and wiring evaluated"):
+        check_dispatch_and_wiring_evaluated(ctx, mod, consts)
     with ctx.section("matching"):
         check_matching(ctx, mod, consts)
     with ctx.section("closing window"):
@@ -1013,6 +1209,15 @@ def check(ctx):
 
 
 MUTANTS = [
+    # dispatch precedence and collaborator wiring
+    Mutant("error-key-tested-only-after-the-command-key", AMP, "        elif ERROR in box:\n            self._errorReceived(box)\n        elif COMMAND in box:\n            self._commandReceived(box)\n",
+           "        elif COMMAND in box:\n            self._commandReceived(box)\n        elif ERROR in box:\n            self._errorReceived(box)\n", expect_rule="match/dispatch-precedence"),
+    Mutant("command-guard-clause-before-the-reply-tests", AMP, "        if ANSWER in box:\n            self._answerReceived(box)\n        elif ERROR in box:\n            self._errorReceived(box)\n        elif COMMAND in box:\n            self._commandReceived(box)\n        else:\n            raise NoEmptyBoxes(box)\n",
+           "        if box.get(COMMAND) is not None and ANSWER not in box:\n            self._commandReceived(box)\n            return\n        if ANSWER in box:\n            self._answerReceived(box)\n        elif ERROR in box:\n            self._errorReceived(box)\n        else:\n            raise NoEmptyBoxes(box)\n",
+           expect_rule="match/reply-with-command-key"),
+    Mutant("box-receiver-defaulted-whenever-falsy", AMP, "        if boxReceiver is None:\n            boxReceiver = self\n", "        if not boxReceiver:\n            boxReceiver = self\n", expect_rule="wiring/default-by-identity"),
+    Mutant("locator-chosen-by-a-truthiness-conditional", AMP, "        if locator is None:\n            locator = self\n        BoxDispatcher.__init__(self, locator)\n",
+           "        BoxDispatcher.__init__(self, locator if locator else self)\n", expect_rule="wiring/falsy-collaborator-kept"),
     Mutant("pending-looked-up-through-a-local-but-never-removed", AMP, "        question = self._outstandingRequests.pop(box[ANSWER])\n", "        waiting = self._outstandingRequests\n        question = waiting[box[ANSWER]]\n",
            expect_rule="match/take-before-fire"),
     Mutant("pending-removed-through-a-local-only-after-the-fire", AMP, "        question = self._outstandingRequests.pop(box[ERROR])\n", "        waiting = self._outstandingRequests\n        question = waiting[box[ERROR]]\n",
@@ -1057,6 +1262,10 @@ MUTANTS = [
 ]
 
 SILENT = [
+    Silent("command-test-first-but-only-for-boxes-without-reply-keys", AMP, "        if ANSWER in box:\n            self._answerReceived(box)\n        elif ERROR in box:\n            self._errorReceived(box)\n        elif COMMAND in box:\n            self._commandReceived(box)\n        else:\n            raise NoEmptyBoxes(box)\n",
+           "        if COMMAND in box and ANSWER not in box and ERROR not in box:\n            self._commandReceived(box)\n        elif ANSWER in box:\n            self._answerReceived(box)\n        elif ERROR in box:\n            self._errorReceived(box)\n        else:\n            raise NoEmptyBoxes(box)\n"),
+    Silent("collaborators-defaulted-by-identity-in-conditional-expressions", AMP, "        if boxReceiver is None:\n            boxReceiver = self\n        if locator is None:\n            locator = self\n        BoxDispatcher.__init__(self, locator)\n        BinaryBoxProtocol.__init__(self, boxReceiver)\n",
+           "        receiver = self if boxReceiver is None else boxReceiver\n        BoxDispatcher.__init__(self, locator if locator is not None else self)\n        BinaryBoxProtocol.__init__(self, receiver)\n"),
     Silent("pending-table-read-into-a-local-before-the-pop", AMP, "        question = self._outstandingRequests.pop(box[ANSWER])\n", "        waiting = self._outstandingRequests\n        question = waiting.pop(box[ANSWER])\n",
            more=[(AMP, "        question = self._outstandingRequests.pop(box[ERROR])\n", "        waiting = self._outstandingRequests\n        tag = box[ERROR]\n        question = waiting[tag]\n        del waiting[tag]\n")]),
     Silent("safe-emit-with-contextlib-suppress", AMP, "        try:\n            aBox._sendTo(self.boxSender)\n        except (ProtocolSwitched, ConnectionLost):\n            pass\n",
